@@ -38,10 +38,10 @@ def run(ctx):
                         'internal/placementh); group ids a<b<pd and rule ids default<r1<r2<r3 are encoded as integers in the same order',
                         'a valid update that the real code rejects is recorded (INFO-ValidUpdateRejected), not a violation']
     ctx.mc('placement', 'RuleManager', 'MC_RuleManager.cfg' if q else 'MC_RuleManager_live.cfg', timeout=1800)
-    seeds = [ctx.seed] if q else [ctx.seed + k for k in range(4)]
+    seeds = [ctx.seed] if q else [ctx.seed + k for k in range(8)]
     for sd in seeds:
         tr = os.path.join(ctx.dir, 'rules_%d.ndjson' % sd)
-        vlib.run_harness(['placement', 'rules', 'out=' + tr, 'seed=%d' % sd, 'histories=%d' % (30 if q else 120), 'ops=%d' % (40 if q else 60)])
+        vlib.run_harness(['placement', 'rules', 'out=' + tr, 'seed=%d' % sd, 'histories=%d' % (30 if q else 250), 'ops=%d' % (40 if q else 60)])
         bad, evs = ctx.monitor_all('placement', 'Trace_RuleManager', 'Trace_RuleManager.cfg', tr, 'rules_%d' % sd, timeout=3000)
         handle(ctx, bad, evs, 'rules_%d' % sd)
         ops = [e for e in evs if e.get('ev') == 'op']
@@ -49,7 +49,7 @@ def run(ctx):
         ctx.extra['updates_rejected'] = ctx.extra.get('updates_rejected', 0) + sum(1 for e in ops if e['res'] == 'err')
         ctx.extra['updates_with_injected_write_failure'] = ctx.extra.get('updates_with_injected_write_failure', 0) + sum(1 for e in ops if e['failed_write'])
         tr2 = os.path.join(ctx.dir, 'faults_%d.ndjson' % sd)
-        vlib.run_harness(['placement', 'faults', 'out=' + tr2, 'seed=%d' % sd, 'scenarios=%d' % (25 if q else 120)])
+        vlib.run_harness(['placement', 'faults', 'out=' + tr2, 'seed=%d' % sd, 'scenarios=%d' % (25 if q else 250)])
         bad2, evs2 = ctx.monitor_all('placement', 'Trace_RuleManager', 'Trace_RuleManager.cfg', tr2, 'faults_%d' % sd, timeout=3000)
         handle(ctx, bad2, evs2, 'faults_%d' % sd)
         ctx.extra['write_faults_enumerated'] = ctx.extra.get('write_faults_enumerated', 0) + sum(1 for e in evs2 if e.get('ev') == 'op' and e['failed_write'])
